@@ -54,7 +54,7 @@ REQUIRED = [a + ".__add__" for a in _ADD] + [a + ".zero" for a in _ADD] + ["util
 
 
 def plan(tier):
-    return 6000 if tier == "quick" else 160000
+    return 12000 if tier == "quick" else 160000
 
 
 def budget(tier):
